@@ -72,6 +72,7 @@ type Obligation struct {
 }
 
 type Exec struct {
+	axiomTerms map[*Term]string // package axioms among assumes (filtered by relevance when a query is printed)
 	P        *Program
 	Fn       *ssa.Function
 	C        *FuncContract
@@ -246,6 +247,28 @@ func (e *Exec) oblige(kind, detail string, cond *Term, props []string, src strin
 	}
 }
 
+// probe adds a vacuity probe: the current program point must not be provably unreachable under the assumptions
+// collected so far (an inconsistent callee contract, assumed clause, invariant or library model would make everything
+// after it "proved"). Expected answer: sat or unknown; unsat is reported as a failed obligation of kind vacuity.
+func (e *Exec) probe(detail string) {
+	if e.specMode || noProbes {
+		return
+	}
+	r := e.root()
+	if r.C == nil || e.guard() == False {
+		return
+	}
+	key := "vacuity:" + detail
+	r.counters[key]++
+	o := &Obligation{Name: fmt.Sprintf("%s#%s:%d", FuncKey(r.Fn), key, r.counters[key]), Kind: "vacuity", Fn: FuncKey(r.Fn),
+		Props: unionProps(r.C.Props, []string{"C08"}), NAssume: len(r.assumes), Goal: e.guard(), Pos: e.posOf(e.curInstr),
+		Src: "this point is reachable under the assumptions in force (vacuity probe)", exec: r, Cover: true}
+	r.obls = append(r.obls, o)
+}
+
+var noProbes = false
+var probeAll = os.Getenv("GOVC_PROBE_ALL") != ""
+
 func (e *Exec) safety(detail string, cond *Term) {
 	if e.root().C != nil && e.root().C.Flags["nosafety"] {
 		e.assume(Implies(e.guard(), cond))
@@ -276,10 +299,14 @@ func RunFunction(p *Program, fn *ssa.Function) (res *ExecResult) {
 		opaqueStrings = true
 	}
 	stringLenBound = false
+	byteLen = false
 	if c := p.ContractOf(fn); c != nil && c.Flags["string_len_bound"] {
 		stringLenBound = true
 	}
-	defer func() { opaqueStrings = false; stringLenBound = false }()
+	if c := p.ContractOf(fn); c != nil && c.Flags["byte_len"] {
+		byteLen = true
+	}
+	defer func() { opaqueStrings = false; stringLenBound = false; byteLen = false }()
 	e := NewExec(p, fn)
 	res = &ExecResult{Exec: e}
 	defer func() {
@@ -379,6 +406,11 @@ func (e *Exec) run() {
 			}
 			t := e.evalContractBool(ax.Expr, e.entryEnv(), "axiom "+ax.Name)
 			e.assume(t)
+			// relevance: the axiom enters a query only if an opaque spec function it speaks about occurs elsewhere in it
+			if e.axiomTerms == nil {
+				e.axiomTerms = map[*Term]string{}
+			}
+			e.axiomTerms[t] = "axiom " + ax.Pkg + "." + ax.Name
 			e.Assumed["axiom "+ax.Pkg+"."+ax.Name] = true
 		}
 		if e.C != nil {
@@ -1141,6 +1173,9 @@ func (e *Exec) step(in ssa.Instruction) {
 	case *ssa.Phi:
 	case *ssa.Call:
 		e.vals[x] = e.call(x, &x.Call)
+		if probeAll && e.inlineOf == nil {
+			e.probe("dbg-after:" + strings.ReplaceAll(x.Call.String(), " ", ""))
+		}
 	case *ssa.Extract:
 		tup, ok := e.val(x.Tuple).(Tuple)
 		if !ok {
@@ -1574,6 +1609,14 @@ func (e *Exec) typeAssert(x *ssa.TypeAssert) Val {
 	ok := Eq(ITag(iv), tagOf(x.AssertedType))
 	s := sortOf(x.AssertedType)
 	val := Unbox(IVal(iv), s)
+	if n, isNamed := x.X.Type().(*types.Named); isNamed && n.Obj().Pkg() != nil && n.Obj().Pkg().Path() == "github.com/openfga/api/proto/openfga/v1" && !n.Obj().Exported() {
+		// A-PROTO-WF: the wrapper held in a oneof field (unexported interface isX_Y of the generated package) is never a
+		// typed nil pointer - the generated getters dereference it in the same way
+		if _, isPtr := x.AssertedType.Underlying().(*types.Pointer); isPtr {
+			e.assume(Implies(And(e.guard(), ok), Neq(val, IntLit(0))))
+			e.root().Assumed["A-PROTO-WF"] = true
+		}
+	}
 	if x.CommaOk {
 		return Tuple{Ite(ok, val, zeroOf(x.AssertedType)), ok}
 	}
@@ -1681,6 +1724,23 @@ func (e *Exec) binop(x *ssa.BinOp) Val {
 	}
 	unsupported("binop %s", x.Op)
 	return nil
+}
+
+// byteLen (contract flag `byte_len`): Go's len(s) is the UTF-8 BYTE length, SMT's str.len counts code points. With
+// the flag the builtin len on strings is the uninterpreted blen(s) with: str.len(s) <= blen(s) <= 4*str.len(s), and
+// blen(s) == str.len(s) for ASCII strings. Use it for code that compares len(s) with a limit.
+var byteLen bool
+
+func ByteLen(s *Term) *Term {
+	fn := DeclFun("blen", []Sort{SString}, SInt)
+	if _, ok := TS.axioms[fn]; !ok {
+		x := BoundVar("s", SString)
+		b := App(fn, SInt, x)
+		n := mk("str.len", SInt, x)
+		ascii := mk("re.*", SRegLan, mk("re.range", SRegLan, StrLit("\x00"), StrLit("\x7f")))
+		AddInstAxiom(fn, []*Term{x}, b, And(Le(n, b), Le(b, Mul(IntLit(4), n)), Implies(mk("str.in_re", SBool, x, ascii), Eq(b, n))))
+	}
+	return App(fn, SInt, s)
 }
 
 // stringLenBound: add the A-SIZE bound on string lengths to the well-formedness of string values (contract flag
@@ -1828,6 +1888,7 @@ func (e *Exec) finish() {
 	if e.C == nil {
 		return
 	}
+	e.probe("exit")
 	env := e.exitEnv()
 	for i, en := range e.C.Ensures {
 		t := e.evalContractBool(en.Expr, env, "ensures")
@@ -1842,7 +1903,11 @@ func (e *Exec) finish() {
 		e.oblige("post", label, t, props, en.Src)
 	}
 	if e.C.Flags["readonly"] {
-		e.checkReadonly()
+		e.checkReadonly(nil)
+	} else if e.C.Flags["readonly_model"] {
+		// the frame restricted to the components of the authorization-model types (package openfgav1): "the model given
+		// to the function is not written", without claiming anything about the function's own object graph
+		e.checkReadonly(func(n string) bool { return strings.Contains(n, "openfgav1") })
 	}
 	for i, cv := range e.C.Covers {
 		t := e.evalContractBool(cv.Expr, env, "cover")
@@ -1860,7 +1925,7 @@ func (e *Exec) finish() {
 
 // checkReadonly emits frame obligations: every heap component that may have changed agrees with the entry heap on
 // every object that existed at entry.
-func (e *Exec) checkReadonly() {
+func (e *Exec) checkReadonly(keep func(string) bool) {
 	names := map[string]bool{}
 	for _, n := range e.exit.CompNames() {
 		names[n] = true
@@ -1872,7 +1937,7 @@ func (e *Exec) checkReadonly() {
 	sort.Strings(ks)
 	for _, n := range ks {
 		srt := allSorts.m()[n]
-		if !srt.IsArray() {
+		if !srt.IsArray() || keep != nil && !keep(n) {
 			continue
 		}
 		now := e.exit.Get(n, srt)
